@@ -477,8 +477,8 @@ struct Dec {
                         if (t == 12 && !is_nstring(v.s)) strict("n-string property value with other characters", off);
                         if (v.s.size() > d.max_string) d.max_string = v.s.size();
                     } else if (t >= 13 && t <= 15) {
-                        v.kind = 3;
-                        v.s = placeholder(r.uint());
+                        v.kind = 4;  // string by reference number, resolved at END (a b-string may hold any bytes:
+                        v.u = r.uint();  // an in-band placeholder could collide with a real value)
                     } else {
                         throw Failure{"unknown property value type " + std::to_string(t)};
                     }
@@ -946,7 +946,11 @@ struct Dec {
         for (auto& p : ps) {
             p.name = resolve(p.name, propnames, "property name");
             for (auto& v : p.vals)
-                if (v.kind == 3) v.s = resolve(v.s, propstrings, "property string");
+                if (v.kind == 4) {
+                    v.kind = 3;
+                    v.s = resolve(placeholder(v.u), propstrings, "property string");
+                    v.u = 0;
+                }
         }
     }
 
